@@ -178,6 +178,10 @@ pub fn family_arith(cfg: CircuitConfig, n: usize, seedv: u64, tag: &str) -> anyh
     }
     b.register_public_input(acc);
     b.register_public_input(z);
+    // a trailing public input whose value is zero: dropping it leaves the (unpadded) public-input hash unchanged,
+    // so only the length check of the shape validation binds the list
+    let zero = b.zero();
+    b.register_public_input(zero);
     let mut pw = PartialWitness::new();
     pw.set_target(x, fc(seedv.wrapping_mul(0x9E37_79B9_7F4A_7C15)))?;
     pw.set_target(y, fc(seedv.wrapping_add(12345)))?;
